@@ -226,6 +226,33 @@ theorem forged_inner_no_effect (h2 : Hdr) (l2 : Look) (inner2 : Option Pkt) (hin
     ∀ e ∈ readOutside true (.mk h2 l2 inner2), gated e = false :=
   effects_need_auth true h2 l2 inner2 hin
 
+/-- relay usage under an unauthenticated relayed payload: whatever the outer level is, if the inner packet
+did not authenticate (`l2.authOK = false`) the only relay index the whole call can mark used is the index
+of the OUTER header, i.e. the relay record that carried the (authenticated) frame — the inner header's
+index (attacker-chosen) is never marked. -/
+theorem unauth_inner_marks_only_carrier (relayed : Bool) (h : Hdr) (l : Look) (h2 : Hdr) (l2 : Look)
+    (inner2 : Option Pkt) (hin : l2.authOK = false) (idx : Nat)
+    (he : Effect.relayUsed idx ∈ readOutside relayed (.mk h l (some (.mk h2 l2 inner2)))) : idx = h.idx := by
+  have hie := forged_inner_no_effect h2 l2 inner2 hin
+  simp only [readOutside] at he
+  generalize readOutside true (.mk h2 l2 inner2) = ie at he hie
+  have hno : Effect.relayUsed idx ∉ ie := fun hm => by simpa [gated] using hie _ hm
+  unfold readLevel at he
+  repeat' (split at he)
+  all_goals first
+    | (simp at he; done)
+    | (exfalso
+       have := handleRecvError_not_gated _ _ he
+       simp [gated] at this; done)
+    | (exfalso
+       have := unknownIndex_not_gated _ _ _ _ he
+       simp [gated] at this; done)
+    | (unfold encryptedPath relayPath dispatch at he
+       repeat' (split at he)
+       all_goals first
+         | (simp at he; done)
+         | (simp at he; first | exact he | exact absurd he hno | (rcases he with he | he <;> first | exact he | exact absurd he hno)))
+
 -- ---------------------------------------------------------------------------------------------
 -- non-vacuity
 
@@ -243,6 +270,14 @@ example : readOutside false (.mk { ver := 1, type := 5, sub := 0, idx := 7 }
 
 example : readOutside false (.mk { ver := 1, type := 2, sub := 0, idx := 9 }
     { recvErr := { host := some 7 } } none) = [.recvErrorClose 7] := by decide
+
+/-- an authentic Terminal relay frame on index 5 whose inner packet (index 9) does not authenticate marks
+exactly index 5 as used (and the relay's tunnel alive) — the premise of `unauth_inner_marks_only_carrier`
+is inhabited and its conclusion is tight. -/
+example : readOutside false (.mk { ver := 1, type := 1, sub := 1, idx := 5 }
+    { host := some { id := 2, relayRec := some { type := nebula_TerminalType, peer := 3 } }, authOK := true }
+    (some (.mk { ver := 1, type := 1, sub := 0, idx := 9 } { host := some { id := 3 }, authOK := false } none)))
+    = [.markIn 2, .relayUsed 5] := by decide
 
 /-- a toy AEAD satisfying `Authentic`: open accepts exactly the listed triples. -/
 example : Authentic (K := Nat)
